@@ -234,6 +234,7 @@ prop("C20", "Parse is a pure function of the rule text", [
     ("parsed_trees_are_well_formed", "mk_tree_wf", "a tree records a text only if it is the tree of that text"),
     ("registration_keeps_registry_well_formed", "set_wf", "registering a well-formed tree keeps the registry well formed"),
     ("parse_terminates", "parse_pure_terminates", "and Parse terminates"),
+    ("no_shared_state_besides_the_registries", "no_package_level_stores", "the audit regenerated from the working tree: no function other than init and the Register* family stores to a package-level variable (a scratch buffer shared by concurrent Parse or Decode calls would show here)"),
     ("parse_never_stores_into_its_input", "parse_src_writes_nil", "the audit regenerated from parser.go: no statement stores into the source bytes (or into slices of them)"),
 ], imports=PARSER_IMPORTS)
 
@@ -248,6 +249,7 @@ prop("C10", "A registered decoder is safe to share between goroutines", [
     ("goroutines_do_not_influence_each_other", "projection_solo", "N goroutines with private states (context, source, destination, trace) over shared immutable data: under every schedule each goroutine ends exactly where its own steps alone lead"),
     ("schedule_irrelevant", "schedule_irrelevant", "two schedules giving a goroutine the same number of steps agree on it"),
     ("decode_path_never_stores_through_the_tree", "decode_path_tree_writes_nil", "the audit regenerated from the working tree: no statement on the decode path stores through a node, Tree, arg or mod"),
+    ("no_shared_state_besides_the_registries", "no_package_level_stores", "the audit regenerated from the working tree: no function other than init and the Register* family stores to a package-level variable (a scratch buffer shared by concurrent Parse or Decode calls would show here)"),
     ("pool_resets_before_sharing", "ctxpool_resets_before_pooling", "CtxPool.Put resets the context before handing it to the pool (regenerated from ctx_pool.go): a pooled context is never reset while another goroutine may already hold it"),
 ], imports=CONC_IMPORTS)
 
@@ -261,6 +263,7 @@ prop("C11", "Steady-state decoding performs no heap allocation", [
 
 prop("C13", "Registering and decoding concurrently is race-free and linearizable", [
     ("lock_discipline_of_db_go", "lock_discipline_holds", "the lock structure regenerated from db.go: every access to idxID / idxKey / idxHash / buf lies in a lock region, writes under the write lock, no locking method called while the lock is held, every path releases the lock"),
+    ("no_shared_state_besides_the_registries", "no_package_level_stores", "the audit regenerated from the working tree: no function other than init and the Register* family stores to a package-level variable (a scratch buffer shared by concurrent Parse or Decode calls would show here)"),
     ("registry_fields_only_touched_in_db_go", "registry_fields_private", "and nothing outside db.go touches those fields"),
     ("lock_invariant", "exec_inv", "a readers-writer lock around a shared value, writer operations non-atomic sequences of primitive writes, arbitrary schedules: the invariant of every reachable configuration"),
     ("reader_sees_complete_states", "reader_sees_complete_states", "every read of a finished reader saw the value exactly as a prefix of the completed writer operations left it (never a half-installed one), and all its reads saw the same value"),
